@@ -84,10 +84,10 @@ type DcDecl struct {
 	Under  *DcTE
 	// hand-written methods: "" none; "ptr" func (in *T) DeepCopy() *T + DeepCopyInto; "val" func (in T) DeepCopy() T;
 	// "into" only func (in *T) DeepCopyInto(out *T)
-	Custom string
-	Tag    string   // "", "true", "false": the type-level +k8s:deepcopy-gen tag
-	Ifaces []string // +k8s:deepcopy-gen:interfaces= (qualified names of interfaces of package p)
-	Detached bool   // the tag is written in the block one blank line above the doc comment
+	Custom   string
+	Tag      string   // "", "true", "false": the type-level +k8s:deepcopy-gen tag
+	Ifaces   []string // +k8s:deepcopy-gen:interfaces= (qualified names of interfaces of package p)
+	Detached bool     // the tag is written in the block one blank line above the doc comment
 }
 
 func (d *DcDecl) QName() string {
@@ -98,10 +98,10 @@ func (d *DcDecl) QName() string {
 }
 
 type DcProgram struct {
-	Decls      []*DcDecl
-	PkgTag     map[string]bool // package -> has "+k8s:deepcopy-gen=package"
-	HasDep     bool
-	byName     map[string]*DcDecl
+	Decls  []*DcDecl
+	PkgTag map[string]bool // package -> has "+k8s:deepcopy-gen=package"
+	HasDep bool
+	byName map[string]*DcDecl
 }
 
 func (p *DcProgram) decl(q string) *DcDecl {
@@ -250,7 +250,9 @@ func (g *dcGen) te(cur, pos string, depth int) *DcTE {
 			return &DcTE{K: "array", Len: 1 + r.Intn(3), Elem: g.te(cur, "array", depth-1)}
 		case 6, 7:
 			if pos == "array" && !g.arrays {
-				if t := g.pickNamed(cur, func(d *DcDecl) bool { return isStruct(d) && g.prog.assignable(&DcTE{K: "named", Name: d.QName()}, map[string]bool{}) }); t != nil {
+				if t := g.pickNamed(cur, func(d *DcDecl) bool {
+					return isStruct(d) && g.prog.assignable(&DcTE{K: "named", Name: d.QName()}, map[string]bool{})
+				}); t != nil {
 					return t
 				}
 				continue
